@@ -1,12 +1,21 @@
 """Shared object-graph driver for C08 / C09 / C12 / C16: a pool of Node objects,
 a menu of graph-mutation events, a from-scratch interpreter of observe
 expressions over the object graph, and the notifier fingerprint."""
-from traits.api import (Dict, HasTraits, Instance, Int, List, Set, Str)
+from traits.api import (Any, Dict, HasTraits, Instance, Int, List, Set, Str)
 from traits.trait_dict_object import TraitDict
 from traits.trait_list_object import TraitList
 from traits.trait_set_object import TraitSet
 
 NPOOL = 3
+
+
+class _Konst(HasTraits):
+    value = Int
+    tagged = Int(tag=True)
+    nid = Int(900)
+
+    def __repr__(self):
+        return "K"
 
 
 def make_node_class(eq=False, falsy=False):
@@ -20,6 +29,9 @@ def make_node_class(eq=False, falsy=False):
         kmap = Dict(Str, Instance(HasTraits), coll=True)
         kset = Set(Instance(HasTraits))
         nid = Int(-1)
+        #: a constant default that is itself an observable object (one
+        #: object for all instances of the class)
+        konst = Any(_Konst())
 
         def _lazy_default(self):
             n = type(self)()
@@ -93,6 +105,10 @@ def all_objects(pool):
         lz = p.__dict__.get("lazy")
         if lz is not None and all(lz is not o for o in out):
             out.append(lz)
+    for p in pool:
+        kz = p.__dict__.get("konst")
+        if kz is not None and all(kz is not o for o in out):
+            out.append(kz)
     return out
 
 
@@ -113,6 +129,11 @@ def enabled(pool, ev):
         return len(d.get("kids", ())) >= 1
     if k == "read_lazy":
         return "lazy" not in d
+    if k == "read_konst":
+        return "konst" not in d
+    if k == "konst":
+        new = None if ev[2] is None else pool[ev[2]]
+        return "konst" in d and d.get("konst") is not new
     if k == "read_kids":
         return "kids" not in d
     if k in ("kids_pop", "kids_del_ext", "kids_mul", "kids_reverse"):
@@ -202,6 +223,12 @@ def apply(pool, ev):
     if k == "read_lazy":
         o.lazy
         return ("read", o, "lazy"), False
+    if k == "read_konst":
+        o.konst
+        return ("read", o, "konst"), False
+    if k == "konst":
+        o.konst = None if ev[2] is None else pool[ev[2]]
+        return ("trait", o, "konst"), False
     if k == "read_kids":
         o.kids
         return ("read", o, "kids"), False
@@ -328,6 +355,9 @@ def event_menu(names, idx=(0, 1)):
             evs += [("del_kids", i)]
         if "lazy" in names:
             evs += [("read_lazy", i)] + [("lazy", i, j) for j in allp + [None]]
+        if "konst" in names:
+            evs += [("read_konst", i)] + [("konst", i, j)
+                                          for j in allp + [None]]
         if "kids" in names:
             evs += [("kids_append", i, j) for j in allp]
             evs += [("kids_insert0", i, j) for j in allp]
@@ -499,5 +529,7 @@ def shape(pool):
             bool(d.get("_readded")),
             ("none" if "xlink" not in o._instance_traits() else
              (ix(d["xlink"]) if d.get("xlink") is not None else None)),
+            ("unset" if "konst" not in d else
+             (ix(d["konst"]) if d["konst"] is not None else None)),
         ))
     return out
